@@ -1288,13 +1288,13 @@ func (il *Inliner) call(in ssa.Instruction, t Tokens) []Tokens {
 				switch {
 				case IsNilConst(ev):
 					kinds[i] = "nil"
-				case provablyNonNil(ev, b):
+				case ProvablyNonNil(ev, b):
 					kinds[i] = "nonnil"
 				default:
 					kinds[i] = "unk"
 					if p, isP := ev.(*ssa.Parameter); isP {
 						for j, q := range h.Params {
-							if q == p && provablyNonNil(call.Call.Args[j], call.Block()) {
+							if q == p && ProvablyNonNil(call.Call.Args[j], call.Block()) {
 								kinds[i] = "nonnil"
 							}
 						}
@@ -1329,7 +1329,7 @@ func (il *Inliner) call(in ssa.Instruction, t Tokens) []Tokens {
 // provablyNonNil: v is known non-nil at block b: a fresh allocation / call to
 // a constructor-like function, a sentinel error global assigned only in the
 // package initialiser, or guarded by a dominating `v != nil`.
-func provablyNonNil(v ssa.Value, b *ssa.BasicBlock) bool {
+func ProvablyNonNil(v ssa.Value, b *ssa.BasicBlock) bool {
 	v = Resolve(v)
 	switch x := v.(type) {
 	case *ssa.MakeInterface:
